@@ -9,7 +9,10 @@ CONFIG = worlda.base_config(
     "every source/destination pair (same mailbox, missing mailbox), message/UID sets with non-existent UIDs, duplicates and out-of-range numbers; "
     "after every op the observer's UID FETCH 1:* (FLAGS INTERNALDATE BODY.PEEK[]) of source and destination is compared with the model "
     "(token multiset, UID order, flags, dates, COPYUID/APPENDUID pairing; refused or read-only commands must leave both unchanged). "
-    "non-trivial = >=1 add/remove op acknowledged OK; distinct = distinct op-kind signatures",
+    "A second family (35%) runs the sessions concurrently (UID COPY / UID MOVE / EXPUNGE racing each other under the latency swarm) with the oracle that "
+    "holds under every schedule: the source UIDs a COPYUID reports are among those the command's UID set named (copy_hit_wrong_message), and the "
+    "sessions' views agree with the server at quiescence; in a third family (15%) UID EXPUNGE <explicit set> is the only removing command, so every UID "
+    "that some session was shown and that is gone at the end must have been named by one of them (expunged_unaddressed). non-trivial = >=1 add/remove op acknowledged OK; distinct = distinct op-kind signatures",
     level_text="full-content conservation against an executable reference model after every operation of seeded histories on the real per-user "
     "server; exploration, because mailbox contents, sets and command sequences are unbounded.",
 )
@@ -20,11 +23,39 @@ W = {
 }
 
 
+CONC_W = {
+    "select": 1, "append": 1, "store": 1, "delete_flag": 5, "fetch": 1.5, "expunge": 5, "copy": 4, "move": 5, "noop": 1.5, "close": 0.7, "deliver": 0.5,
+}
+
+
+UIDEXP_W = {"select": 0.7, "append": 1, "store": 1, "delete_flag": 6, "fetch": 2, "expunge": 6, "copy": 1, "noop": 2, "deliver": 0.5}
+
+
 def profile(r, tier, index):
+    x = r.random()
+    if x < 0.15:
+        # UID EXPUNGE <explicit set> is the only way a message can go away in these runs
+        return {
+            "mailboxes": ["inbox", "work"][: r.randint(1, 2)], "sessions": r.randint(2, 3), "weights": UIDEXP_W, "init_lo": 5, "init_hi": 10,
+            "ops_lo": 12, "ops_hi": 40 if tier == "thorough" else 28, "mode": "concurrent", "compare": False, "bad_set_p": 0.0, "examine_p": 0.0, "quiet_p": 0.1,
+            "uidexpunge_p": 1.0, "uidexpunge_only": True,
+        }
+    if x < 0.45:
+        return {
+            "mailboxes": ["inbox", "work"], "sessions": r.randint(2, 3), "weights": CONC_W, "init_lo": 4, "init_hi": 9,
+            "ops_lo": 12, "ops_hi": 40 if tier == "thorough" else 28, "mode": "concurrent", "compare": False, "bad_set_p": 0.03, "examine_p": 0.05, "quiet_p": 0.1,
+        }
     return {
         "mailboxes": ["inbox", "work", "a/b"][: r.randint(2, 3)], "sessions": r.randint(2, 3), "weights": W, "init_hi": 7,
         "ops_lo": 8, "ops_hi": 40 if tier == "thorough" else 28, "mode": "sequential", "bad_set_p": 0.12, "examine_p": 0.3,
     }
 
 
-generate, execute, simplifications = _common.make(PROP, profile, CONFIG)
+def post(prog, r, tier, prof):
+    if prog["mode"] == "concurrent":
+        for op in prog["ops"]:
+            op["when"] = {"delay": r.choice((0.0, 0.0, 0.0, 0.001, 0.01, 0.05, 0.3))}
+    return prog
+
+
+generate, execute, simplifications = _common.make(PROP, profile, CONFIG, post)
